@@ -2,11 +2,6 @@ import LiquidVerif.Model.ParseLoops
 /-! Helper lemmas for C09 (parser side). -/
 namespace LiquidVerif.ParseLoops
 
-theorem length_le_wl (ts : List Tok) : ts.length ≤ wl ts := by
-  induction ts with
-  | nil => simp [wl]
-  | cons t r ih => simp only [List.length_cons, wl_cons]; have := t.weight_pos; omega
-
 /-- one iteration of the `parse_block` / `_parse` loop that does not raise: the loop goes on with the tail of the
 stream the tag parser left (`next(stream)`) -/
 theorem blockLoop_step (cfg : Cfg) (ends : List String) (d : Nat) (t : Tok) (r : List Tok)
@@ -30,9 +25,11 @@ theorem caseLoop_nil (cfg : Cfg) (d : Nat) : (caseLoop cfg d []).1.err = some .s
   · rfl
   · intro n r h; cases h
 
-theorem recover_lax (cfg : Cfg) (hl : cfg.lax = true) (be : Option String) {ts : List Tok} (p : Res ts) (k : String) :
-    (recover cfg be p k).1.err = none := by
+theorem recover_lax (cfg : Cfg) (hl : cfg.lax = true) (be : Option String) (t : Tok) (r : List Tok) (p : PR)
+    (hw : wl p.rest ≤ wl r) (hk : p.iters + phi p.rest ≤ wl r) (k : String) :
+    (recover cfg be t r p hw hk k).1.err = none := by
   unfold recover
+  simp only
   split
   · rename_i h
     split <;> simp [h]
@@ -48,17 +45,20 @@ theorem getNode_lax_ok (cfg : Cfg) (hl : cfg.lax = true) (d : Nat) (t : Tok) (r 
     (getNode cfg d t r).1.err = none := by
   cases t with
   | tag n =>
-    rw [getNode]
+    unfold getNode
+    simp only
     repeat (first
-      | exact recover_lax cfg hl _ _ _
+      | exact recover_lax cfg hl _ _ _ _ _ _ _
       | rfl
-      | apply ite_prop (fun x : Res (Tok.tag n :: r) => x.1.err = none))
-  | expr inner => rw [getNode]; exact recover_lax cfg hl _ _ _
+      | rw [if_pos hl]
+      | apply ite_prop (fun x : ResN (Tok.tag n) r => x.1.err = none)
+      | split)
+  | expr inner => rw [getNode, if_pos hl]; rfl
   | output =>
     rw [getNode]
-    apply ite_prop (fun x : Res (Tok.output :: r) => x.1.err = none)
+    apply ite_prop (fun x : ResN Tok.output r => x.1.err = none)
     · rfl
-    · exact recover_lax cfg hl _ _ _
+    · rw [if_pos hl]; rfl
   | content => rw [getNode]; rfl
   | comment => rw [getNode]; rfl
   | doc => rw [getNode]; rfl
@@ -76,8 +76,14 @@ theorem blockLoop_lax_total (cfg : Cfg) (hl : cfg.lax = true) :
       have hend : t.isTagIn [] = false := by cases t <;> simp [Tok.isTagIn]
       have hok := getNode_lax_ok cfg hl d t r
       obtain ⟨h1, h2⟩ := blockLoop_step cfg [] d t r hend hok
-      have hlt := wl_tail_lt (getNode cfg d t r).2
+      have hlt := wl_tail_lt (getNode cfg d t r).2.w
       obtain ⟨i1, i2⟩ := ih _ (by rw [← hn]; exact hlt) (getNode cfg d t r).1.rest.tail (getNode cfg d t r).1.depth rfl
       exact ⟨by rw [h2]; exact i1, by rw [h1]; exact i2⟩
+
+/-- the number of completed loop passes of a whole parse, plus the potential of what an exception left unread,
+is at most the weight of the token stream -/
+theorem parseTemplate_steps (cfg : Cfg) (ts : List Tok) :
+    (parseTemplate cfg ts).iters + phi (parseTemplate cfg ts).rest ≤ wl ts :=
+  (blockLoop cfg [] 0 ts).2.k
 
 end LiquidVerif.ParseLoops
